@@ -377,6 +377,8 @@ pub fn fault_histories(tier: &str) -> Vec<FaultHistory> {
                 fl.clone(),
                 Op::Major { w: Wm::Tight, target: u64::MAX },
                 Op::Major { w: Wm::Tight, target: u64::MAX },
+                // drop-type version change on a blob tree (same path FIFO uses)
+                Op::DropRange { lo: Bnd::Unb, hi: Bnd::Unb },
             ],
         },
     ];
